@@ -26,6 +26,10 @@ func (i inst) kind() string {
 		return "host"
 	case "interps":
 		return "interps"
+	case "iface":
+		if i.K == 2 {
+			return "hostiface"
+		}
 	}
 	return "prog"
 }
@@ -342,6 +346,252 @@ func main() {
 		x = 0
 	}
 	wg.Wait()
+}
+`,
+	// iface, form K = 0: the argument of the interface method call blocks on the private channel
+	"iface0": `
+type adder interface {
+	Add(v int)
+	Get() int
+}
+
+type ca struct {
+	cnt int
+}
+
+func (c *ca) Add(v int) { c.cnt = c.cnt + v }
+
+func (c *ca) Get() int { return c.cnt }
+
+type cb struct {
+	cnt int
+}
+
+func (c *cb) Add(v int) { c.cnt = c.cnt + 2*v }
+
+func (c *cb) Get() int { return c.cnt }
+
+func object(id int) adder {
+	if id%2 == 1 {
+		return &ca{cnt: id * 100}
+	}
+	return &cb{cnt: id * 100}
+}
+
+var wg sync.WaitGroup
+
+// the ONE interface method call site every worker goes through
+func apply(x adder, c chan int) {
+	x.Add(<-c)
+}
+
+func oworker(id int, x adder, c chan int) {
+	apply(x, c)
+	fmt.Println(id, x.Get())
+	wg.Done()
+}
+
+func ofeeder(id int, c chan int, wait chan int, sig chan int, m int) {
+	<-wait
+	c <- id*10 + m
+	sig <- 1
+}
+
+func main() {
+	wg.Add(N)
+	first := make(chan int)
+	tprev := first
+	for i := 1; i <= N; i++ {
+		obj := object(i)
+		c := make(chan int)
+		tnext := make(chan int)
+		go oworker(i, obj, c)
+		go ofeeder(i, c, tnext, tprev, M)
+		tprev = tnext
+	}
+	tprev <- 1
+	<-first
+	wg.Wait()
+}
+`,
+	// iface, form K = 1: the argument is a call that yields, then receives
+	"iface1": `
+type adder interface {
+	Add(v int)
+	Get() int
+}
+
+type ca struct {
+	cnt int
+}
+
+func (c *ca) Add(v int) { c.cnt = c.cnt + v }
+
+func (c *ca) Get() int { return c.cnt }
+
+type cb struct {
+	cnt int
+}
+
+func (c *cb) Add(v int) { c.cnt = c.cnt + 2*v }
+
+func (c *cb) Get() int { return c.cnt }
+
+func object(id int) adder {
+	if id%2 == 1 {
+		return &ca{cnt: id * 100}
+	}
+	return &cb{cnt: id * 100}
+}
+
+var wg sync.WaitGroup
+
+func pull(c chan int) int {
+	runtime.Gosched()
+	v := <-c
+	return v
+}
+
+// the ONE interface method call site every worker goes through
+func apply(x adder, c chan int) {
+	x.Add(pull(c))
+}
+
+func oworker(id int, x adder, c chan int) {
+	apply(x, c)
+	fmt.Println(id, x.Get())
+	wg.Done()
+}
+
+func ofeeder(id int, c chan int, wait chan int, sig chan int, m int) {
+	<-wait
+	c <- id*10 + m
+	sig <- 1
+}
+
+func main() {
+	wg.Add(N)
+	first := make(chan int)
+	tprev := first
+	for i := 1; i <= N; i++ {
+		obj := object(i)
+		c := make(chan int)
+		tnext := make(chan int)
+		go oworker(i, obj, c)
+		go ofeeder(i, c, tnext, tprev, M)
+		tprev = tnext
+	}
+	tprev <- 1
+	<-first
+	wg.Wait()
+}
+`,
+	// iface, form K = 3: form 1 with the receive written in the return statement (pinned, n = 1)
+	"iface3": `
+type adder interface {
+	Add(v int)
+	Get() int
+}
+
+type ca struct {
+	cnt int
+}
+
+func (c *ca) Add(v int) { c.cnt = c.cnt + v }
+
+func (c *ca) Get() int { return c.cnt }
+
+type cb struct {
+	cnt int
+}
+
+func (c *cb) Add(v int) { c.cnt = c.cnt + 2*v }
+
+func (c *cb) Get() int { return c.cnt }
+
+func object(id int) adder {
+	if id%2 == 1 {
+		return &ca{cnt: id * 100}
+	}
+	return &cb{cnt: id * 100}
+}
+
+var wg sync.WaitGroup
+
+func pull(c chan int) int {
+	runtime.Gosched()
+	return <-c
+}
+
+// the ONE interface method call site every worker goes through
+func apply(x adder, c chan int) {
+	x.Add(pull(c))
+}
+
+func oworker(id int, x adder, c chan int) {
+	apply(x, c)
+	fmt.Println(id, x.Get())
+	wg.Done()
+}
+
+func ofeeder(id int, c chan int, wait chan int, sig chan int, m int) {
+	<-wait
+	c <- id*10 + m
+	sig <- 1
+}
+
+func main() {
+	wg.Add(N)
+	first := make(chan int)
+	tprev := first
+	for i := 1; i <= N; i++ {
+		obj := object(i)
+		c := make(chan int)
+		tnext := make(chan int)
+		go oworker(i, obj, c)
+		go ofeeder(i, c, tnext, tprev, M)
+		tprev = tnext
+	}
+	tprev <- 1
+	<-first
+	wg.Wait()
+}
+`,
+	// iface, form K = 2: the script of "n HOST goroutines call the same exported function"
+	"iface2": `
+type adder interface {
+	Add(v int)
+	Get() int
+}
+
+type ca struct {
+	cnt int
+}
+
+func (c *ca) Add(v int) { c.cnt = c.cnt + v }
+
+func (c *ca) Get() int { return c.cnt }
+
+type cb struct {
+	cnt int
+}
+
+func (c *cb) Add(v int) { c.cnt = c.cnt + 2*v }
+
+func (c *cb) Get() int { return c.cnt }
+
+func object(id int) adder {
+	if id%2 == 1 {
+		return &ca{cnt: id * 100}
+	}
+	return &cb{cnt: id * 100}
+}
+
+// the exported function the host goroutines call; ONE interface method call site
+func Apply(id int, c chan int) int {
+	x := object(id)
+	x.Add(<-c)
+	return x.Get()
 }
 `,
 	"pool": `
@@ -661,6 +911,31 @@ func Run(id int, m int) int {
 
 // the host side of "host" and "interps", as a native main (reference only; under yaegi the
 // harness child plays this part, see runHost / runInterps)
+// host side of iface form 2 (reference only; under yaegi see runHostIface): n callers, then a
+// releaser that feeds the private channels in the reverse order
+const hostIfaceMain = `
+func main() {
+	var h sync.WaitGroup
+	res := make([]int, N+1)
+	cs := make([]chan int, N+1)
+	h.Add(N)
+	for i := 1; i <= N; i++ {
+		cs[i] = make(chan int)
+		go func(i int) {
+			res[i] = Apply(i, cs[i])
+			h.Done()
+		}(i)
+	}
+	for i := N; i >= 1; i-- {
+		cs[i] <- i*10 + M
+	}
+	h.Wait()
+	for i := 1; i <= N; i++ {
+		fmt.Println(i, res[i])
+	}
+}
+`
+
 const hostMain = `
 func main() {
 	var h sync.WaitGroup
@@ -682,7 +957,7 @@ func main() {
 
 func (i inst) body() string {
 	switch i.T {
-	case "counter", "privsel", "rebind":
+	case "counter", "privsel", "rebind", "iface":
 		return sources[fmt.Sprintf("%s%d", i.T, i.K)]
 	case "pipeline":
 		return sources[fmt.Sprintf("pipeline%d", i.N)]
@@ -694,6 +969,9 @@ func imports(body string) string {
 	var im []string
 	if strings.Contains(body, "fmt.") {
 		im = append(im, `"fmt"`)
+	}
+	if strings.Contains(body, "runtime.") {
+		im = append(im, `"runtime"`)
 	}
 	if strings.Contains(body, "sync.") {
 		im = append(im, `"sync"`)
@@ -713,6 +991,9 @@ func (i inst) script() string {
 // native is the compiled reference program of the instance.
 func (i inst) native() string {
 	switch i.kind() {
+	case "hostiface":
+		b := i.body() + hostIfaceMain
+		return "package main\n\n" + imports(b) + i.consts() + b
 	case "host":
 		b := i.body() + hostMain
 		return "package main\n\n" + imports(b) + i.consts() + b
